@@ -1407,6 +1407,62 @@ def run_C02(ctx):
         ctx.report('obligation:' + broken[0], f'proof obligation(s) no longer check: {broken[:5]}', {'broken': broken}, found=False)
 
 
+def run_C08(ctx):
+    import c08_oracle
+    broken = check_obligations(ctx, PROPS['C08']['theorems'])
+    gen = ctx.gen_info
+    for f in gen.get('failed', []):
+        ctx.notes.append('generator failure: ' + str(f)[:500])
+    obl = gen.get('c08_obligations', {})
+    for o in obl.get('obligations', []):
+        ctx.obligations.append({'name': 'Gen.' + o['id'], 'ok': bool(o.get('holds') and ctx.build_ok), 'check': f"{o['year']} {o['status']} {o['amount']} @ {o['site']}: {o['check']}"[:300], 'counts': {'points': o.get('points')}})
+    failed = gen.get('c08_failed', [])
+    ctx.gen_info = {'summary': obl.get('summary'), 'failed_ids': [f.get('id') for f in failed],
+                    'unverified_amounts': [u['id'] for u in obl.get('unverified_amounts', [])],
+                    'uncovered_sites': len(obl.get('uncovered_sites', [])), 'table_entries_without_site': obl.get('table_entries_without_site')}
+    res = c08_oracle.run(ctx.seed, ctx.tier)
+    ctx.statement['c08-amounts'] = {
+        'checked': res['checked'].get('scenarios', 0) + res['checked'].get('template_amounts', 0),
+        'distinct_nontrivial': res['checked'].get('triples_observed', 0), 'violations': len(res['violations']),
+        'detail': res['checked'], 'not_observed': res['not_observed'][:20], 'skipped_unverified': res['skipped_unverified'],
+        'rule': 'one REAL solve per (year, status, amount, site, bound): the observed line at the published amount and one cent / one dollar beyond it must show the published behaviour (value, gate, coefficient); plus every amount printed in a bundled template against the table; one case = one solve or one printed amount; non-trivial = distinct (year, status, amount) triples observed',
+        'samples': res.get('samples', [])[:2]}
+    by_amount = {}
+    for v in res['violations']:
+        by_amount.setdefault((v['year'], v['status'], v['amount']), v)
+    reported = 0
+    for f in failed:
+        fid = str(f.get('id'))
+        v = by_amount.get((f.get('year'), f.get('status'), f.get('amount')))
+        if v is None:
+            v = next((x for k, x in list(by_amount.items()) if k[0] == f.get('year') and k[2] == f.get('amount')), None)
+        what = f"{f.get('year')} {f.get('status')} {f.get('amount')} at {f.get('site')}: {json.dumps(f.get('witness', f.get('witnesses')), default=str)[:300]}"
+        known = ctx.matches_known(fid) is not None
+        rep = {'obligation': fid, 'witness': f.get('witness', f.get('witnesses'))}
+        if v is not None:
+            rep = dict(rep, kind='scenario', case=v['replay'], published=v.get('published'), cite=v.get('cite'))
+            what += f"; real solve: {json.dumps(v['problems'], default=str)[:200]}"
+        ctx.report(fid, what, rep, found=v is not None or known)
+        reported += 1
+        for o in ctx.obligations:
+            if o['name'] == 'Gen.' + fid and known:
+                o['ok'] = ctx.build_ok
+                o['note'] = 'fails exactly at a recorded known finding; the negation and the `_rest` theorem are proved'
+    for key, v in by_amount.items():
+        if any(f.get('year') == key[0] and f.get('amount') == key[2] for f in failed):
+            continue
+        ctx.report(f'c08_{key[0]}_{key[1]}_{key[2]}:solve', f"{v['what']}: {json.dumps(v['problems'], default=str)[:300]} (published {v.get('published')}, {str(v.get('cite'))[:100]})",
+                   {'kind': 'scenario', 'case': v['replay']})
+        reported += 1
+    for d in res['template_checks'].get('disagreements', []):
+        ctx.report(f"template:{d['template']}:{d['amount']}:{d['status']}", f"{d['template']} prints {d['printed']} for {d['amount']} ({d['status']}, {d['year']}); published {d['table']}", {'template': d})
+        reported += 1
+    if not ctx.build_ok and not reported:
+        ctx.report('obligation:build', 'generated obligations no longer build (model and real code disagree on an evaluation, or the model changed)', {'log': ctx.build_log[-2000:]}, found=False)
+    elif broken and not reported:
+        ctx.report('obligation:' + broken[0], f'proof obligation(s) no longer check: {broken[:5]}', {'broken': broken}, found=False)
+
+
 def run_C16(ctx):
     import tax_oracles as to
     import scenarios as sc
@@ -1493,6 +1549,9 @@ PROPS = {
         'HabuVerif.Spec.line_matches_instruction', 'HabuVerif.Spec.certifies_sound', 'HabuVerif.Spec.evalLine_of_toArith'],
         assumptions=['the instruction table (tools/c02_instructions.py: template accessibility text parsed by a fixed pattern set; tools/c02_transcriptions.json: cited transcriptions of worksheets and NC forms) is the specification and is trusted as entered',
                      'PARTIAL: layer 2 (meaning of a match, in exact cents) is proved for the certified fragment (carry/add/sub/floor/cap/min/max/cond over reads; about 255 of 476 instructions); sum-comprehensions, rate multiplications, guards and NC whole-dollar lines are matched syntactically (kernel-checked) and validated on real solutions by the oracle']),
+    'C08': dict(run=run_C08, theorems=['HabuVerif.C08.run_congr', 'HabuVerif.C08.run_agrees', 'HabuVerif.C08.allSome_cons', 'HabuVerif.C08.table_has_standard_deductions'],
+        assumptions=['the table of published amounts (tools/c08_statutory.json, mirrored in Spec/Statutory.lean, 68 amounts x years x statuses with citations) was entered independently of the code and is trusted as entered; 5 amounts are listed as unverified and not checked',
+                     'the site survey (tools/c08_sites.py) and the reviewed site map (tools/c08_map.json) decide WHERE an amount is expected; 34 sites per year are uncovered (31 of them the NC consumer-use-tax table) and listed in the evidence']),
     'C15': dict(run=run_C15, theorems=['HabuVerif.C15.' + t for t in [
         'shapes_2021', 'shapes_2022', 'shapes_2023', 'overpayment_and_amount_owed', 'refund_and_applied',
         'solved_return_balances', 'stored_money_is_cent_valued', 'over_owed', 'refund_split']],
